@@ -1,16 +1,16 @@
 /* C mirror of class Image (src/Image.hh); the member list is checked against the class text by props/C07.py:check_members
- * on every run.  Nothing is dropped: the class has no other data members. */
+ * on every run.  The class has no other data members. */
 #ifndef C07_TYPES_H
 #define C07_TYPES_H
 #include "contracts/verif.h"
 #include <stdlib.h>
 
-typedef union DataPtrs {
+/* union DataPtrs { void* raw; uint8_t* as8; uint16_t* as16; uint32_t* as32; uint64_t* as64; }: five views of ONE pointer.
+ * cbmc 6.11 mishandles pointers read out of a union (a store through p->u.as16[i] after u.raw was assigned is lost; reproduced in
+ * isolation), so the mirror keeps the single pointer and every `X.asN[i]` of the source is rewritten to `((uintN_t*)X.raw)[i]` by a
+ * must-fire extraction rule (props/C07.py: AS); sizeof and layout are unchanged. */
+typedef struct DataPtrs {
   void* raw;
-  uint8_t* as8;
-  uint16_t* as16;
-  uint32_t* as32;
-  uint64_t* as64;
 } DataPtrs;
 
 typedef struct Image {
